@@ -158,35 +158,9 @@ def check_reactors(report, db, P, R3):
         nstores += 1
         v = st[0].value
         it = key = val = None
-        if v[0] == 'op' and v[1] in ('dictcomp',) and len(v[2][0][1]) == 1 \
-                and len(v[2][1][1]) == 1:
-            it = v[2][0][1][0]
-            key, val = v[2][1][1][0][1]
-        elif v[0] == 'op' and v[1] == 'dict' and len(v[2]) == 1 and \
-                v[2][0][0] == 'op' and v[2][0][1] in ('genexp', 'listcomp') \
-                and len(v[2][0][2][1][1]) == 1:
-            g = v[2][0]
-            it = g[2][0][1][0]
-            pair = g[2][1][1][0][1][0]
-            if pair[0] == 'tuple' and len(pair[1]) == 2:
-                key, val = pair[1]
-        elif v[0] == 'phi':
-            for lp in [e for e in p.events if e.kind == 'loop']:
-                pre = (lp.pre or {}).get(v[1])
-                if pre != ('dict', ()):
-                    continue
-                ph = (lp.phis or {}).get(v[1])
-                for q in lp.paths:
-                    sets = [e for e in q.flat(('setitem',)) if e.base == ph]
-                    others = [e for e in q.flat(('setitem', 'delitem',
-                                                 'call'))
-                              if e not in sets and any(
-                                  t == ph for t in [e.base] + list(
-                                      e.args or ()) if t is not None)]
-                    if len(sets) == 1 and not others and \
-                            q.outcome[0] in ('fall', 'continue'):
-                        it = lp.ctx
-                        key, val = sets[0].key, sets[0].value
+        mf = _shared.mapping_form(v, p)
+        if mf is not None:
+            it, _, key, val = mf
         good = False
         why = 'the id table is %s: not a mapping built from ' \
             'get_clientbound_packets(context)' % show(v)[:120]
@@ -200,7 +174,7 @@ def check_reactors(report, db, P, R3):
                 if it[1][0] == 'attr' else
                 it[1][1].name == 'get_clientbound_packets') and \
                 len(it[2]) == 1 and el[0] == 'elem' and \
-                struct(el[1]) == struct(it)
+                struct(_shared._strip_seq(el[1])) == struct(it)
             ctx_ok = key_ok and it_ok and struct(key[2][0]) == \
                 struct(it[2][0]) and struct(it[2][0]) in (
                     ('attr', ('attr', me, 'connection'), 'context'),
@@ -268,8 +242,8 @@ def check_predicate_constants(report, db, P, R5):
                     'raises KeyError' % (c, c))
     report.note('predicate call sites', len(sites))
     report.note('predicate constants', len(consts))
-    report.floor('version predicate call sites', len(sites), 400)
-    report.floor('distinct predicate constants', len(consts), 60)
+    report.floor('version predicate call sites', len(sites), 250)
+    report.floor('distinct predicate constants', len(consts), 40)
 
 
 def cell_crosscheck(report, db, P):
